@@ -44,6 +44,8 @@ type Opts struct {
 	NoGasObserve bool // no GAS opcode, calls pass a fixed gas amount (pair runs must not observe the fee difference)
 	NoMcopy      bool // Cancun programs without MCOPY (comparison with go-ethereum + EIP-1153)
 	NoCodeRead   bool // no CODECOPY / EXTCODECOPY / EXTCODEHASH (the compared variants differ in code bytes)
+	JournalHeavy bool // every fourth snippet is a journal snippet (attribution / balance-journal properties)
+	RevertBias   bool // half of the programs end in REVERT with data and gas left
 	PadJournal   bool // follow each journal opcode popping n operands by n-1 JUMPDESTs (pair runs: same length as n POPs)
 }
 
@@ -132,6 +134,10 @@ var envops = []byte{0x30, 0x32, 0x33, 0x34, 0x36, 0x38, 0x3a, 0x41, 0x42, 0x43, 
 func (g *gen) snippet() {
 	b := g.b
 	f := g.o.Fork
+	if g.o.JournalHeavy && g.o.Journal && g.r.Intn(4) == 0 {
+		g.journal()
+		return
+	}
 	switch x := g.r.Intn(100); {
 	case x < 14: // binary arithmetic / comparison / bitwise
 		b.PushBig(g.smallWord()).PushBig(g.smallWord()).Op(binops[g.r.Intn(len(binops))])
@@ -222,6 +228,23 @@ func (g *gen) snippet() {
 		if g.r.Intn(3) == 0 {
 			b.Push(uint64(g.r.Intn(4))).Op(asm.SLOAD)
 			g.sink()
+		} else if g.r.Intn(2) == 0 {
+			// net gas metering: write one slot two or three times with values from the set the pre-state uses
+			// (dirty -> reset to original, dirty -> zero -> non-zero, ...)
+			slot := uint64(g.r.Intn(4))
+			if g.r.Intn(3) != 0 {
+				// dirty the slot, then write back the value it had (original -> x -> original)
+				b.Push(slot).Op(asm.SLOAD)
+				b.Push(uint64(g.r.Intn(5))).Push(slot).Op(asm.SSTORE)
+				if g.r.Intn(3) == 0 {
+					b.Push(uint64(g.r.Intn(3))).Push(slot).Op(asm.SSTORE)
+				}
+				b.Push(slot).Op(asm.SSTORE)
+			} else {
+				for i := 0; i < 2+g.r.Intn(2); i++ {
+					b.Push(uint64(g.r.Intn(4))).Push(slot).Op(asm.SSTORE)
+				}
+			}
 		} else {
 			vals := []uint64{0, 0, 1, 2, 0xffff}
 			b.Push(vals[g.r.Intn(len(vals))]).Push(uint64(g.r.Intn(4))).Op(asm.SSTORE)
@@ -271,8 +294,24 @@ func (g *gen) snippet() {
 		b.Push(1).Op(asm.SWAP1, asm.SUB)              // n-1
 		b.Op(asm.DUP1).Push2Fixed(loop).Op(asm.JUMPI) // if n-1 != 0 goto loop
 		b.Op(asm.POP)
-	case x < 82: // calls
+	case x < 79: // calls
 		g.call()
+	case x < 80: // value sent to the executing account itself, or to another account, with little gas (balances move, recursion dies out)
+		vals := []uint64{1, 1, 2, 7}
+		b.Push(0).Push(0).Push(uint64(g.r.Intn(8))).Push(0).Push(vals[g.r.Intn(len(vals))])
+		if g.r.Intn(3) != 0 {
+			b.Op(0x30) // ADDRESS: the account whose storage this frame operates on
+		} else {
+			b.PushAddr(g.anyAddr())
+		}
+		b.Push(uint64(g.r.Intn(300))).Op(asm.CALL)
+		g.sink()
+	case x < 82: // return data must be the callee's bytes, not a window onto the caller's memory
+		if f >= 4 && !g.o.NoGasObserve {
+			g.returnDataProbe()
+		} else {
+			g.call()
+		}
 	case x < 86:
 		if !g.o.NoCreate {
 			g.create()
@@ -417,6 +456,41 @@ func (g *gen) call() {
 	g.sink()
 }
 
+// returnDataProbe: fill an input region, call something (often a precompile) with it, overwrite the region,
+// then copy the whole return data elsewhere and make it observable.
+func (g *gen) returnDataProbe() {
+	b := g.b
+	inoff := uint64(g.r.Intn(4)) * 32
+	insz := uint64(1 + g.r.Intn(64))
+	dst := inoff + 128 + uint64(g.r.Intn(3))*32
+	b.PushBytes(g.r.Bytes(32)).Push(inoff).Op(asm.MSTORE)
+	b.PushBytes(g.r.Bytes(32)).Push(inoff + 32).Op(asm.MSTORE)
+	outoff, outsz := inoff+uint64(g.r.Intn(48)), uint64(g.r.Intn(40))
+	if g.r.Intn(3) == 0 {
+		outsz = 0
+	}
+	target := g.anyAddr()
+	if g.r.Intn(2) == 0 {
+		target = g.u.Precomp[g.r.Intn(len(g.u.Precomp))]
+	}
+	kind := g.r.Intn(4)
+	b.Push(outsz).Push(outoff).Push(insz).Push(inoff)
+	if kind == 0 || kind == 1 {
+		b.Push(0)
+	}
+	b.PushAddr(target).Push(uint64(30000 + g.r.Intn(30000)))
+	b.Op([]byte{asm.CALL, asm.CALLCODE, asm.DELEGATECALL, asm.STATICCALL}[kind]).Op(asm.POP)
+	b.PushBytes(g.r.Bytes(32)).Push(inoff).Op(asm.MSTORE)
+	if g.r.Bool() {
+		b.PushBytes(g.r.Bytes(32)).Push(inoff + 32).Op(asm.MSTORE)
+	}
+	b.Op(asm.RETURNDATASIZE).Push(0).Push(dst).Op(asm.RETURNDATACOPY)
+	b.Push(dst).Op(asm.MLOAD).Push(uint64(g.r.Intn(4))).Op(asm.SSTORE)
+	if g.r.Bool() {
+		b.Push(dst + 32).Op(asm.MLOAD).Push(uint64(g.r.Intn(4))).Op(asm.SSTORE)
+	}
+}
+
 func (g *gen) create() {
 	b := g.b
 	f := g.o.Fork
@@ -473,6 +547,10 @@ func ProgramSites(r *rng.R, u Universe, o Opts) ([]byte, []int) {
 		g.snippet()
 	}
 	// ending
+	if o.RevertBias && o.Fork >= 4 && r.Bool() {
+		g.b.Push(uint64(r.Intn(40))).Push(g.memOff()).Op(asm.REVERT)
+		return g.b.Bytes(), g.sites
+	}
 	switch r.Intn(5) {
 	case 0:
 		g.b.Op(asm.STOP)
